@@ -1,6 +1,6 @@
 //! C02 — hand-written record readers and derivations (CodeView, debug id, context selection).
 use super::c02_support::*;
-use crate::common::any_endian;
+use crate::common::{any_endian, stub_format};
 use minidump::format as md;
 use minidump::verif as hook;
 use minidump::{CodeView, Endian, MinidumpContext, MinidumpRawContext, MinidumpStream, MinidumpSystemInfo};
@@ -213,6 +213,48 @@ fn c02_w_codeview_reachable() {
         assert!(false);
     }
     std::mem::forget(cv);
+}
+
+/// F: minidump::read_stream_list::<MINIDUMP_MEMORY_DESCRIPTOR> (the 0-or-4-byte padding rule between the count and the first element)
+/// I: count field fixed to 1, one 16-byte element with symbolic bytes, optional 4 padding bytes (symbolic); little endian for both layouts, big endian for the padded one
+/// B: one element; streams of 20 (unpadded) and 24 (padded) bytes
+/// O: both layouts parse to one element whose fields are the bytes after the padding (offset 8 when padded, 4 when not); the offset ends at the end of the stream
+#[kani::proof]
+#[kani::unwind(9)]
+#[kani::stub(alloc::fmt::format, stub_format)]
+fn c02_q_list_elements_follow_padding() {
+    // byte order fixed per call: with a symbolic one the count field does not fold to the constant 1
+    list_with_padding::<4, 20>(Endian::Little);
+    list_with_padding::<8, 24>(Endian::Little);
+    list_with_padding::<8, 24>(Endian::Big);
+}
+
+fn list_with_padding<const AT: usize, const LEN: usize>(e: Endian) {
+    let mut buf: [u8; LEN] = kani::any();
+    put_u32(&mut buf, 0, 1, e);
+    let rd = |o: usize, n: usize| {
+        let mut v: u64 = 0;
+        let mut i = 0;
+        while i < n {
+            let b = match e {
+                Endian::Little => buf[o + n - 1 - i],
+                Endian::Big => buf[o + i],
+            };
+            v = (v << 8) | b as u64;
+            i += 1;
+        }
+        v
+    };
+    let mut off = 0usize;
+    let r = minidump::verif::read_stream_list::<minidump::format::MINIDUMP_MEMORY_DESCRIPTOR>(&mut off, &buf[..], e);
+    match &r {
+        Ok(v) => {
+            assert!(v.len() == 1 && off == LEN);
+            assert!(v[0].start_of_memory_range == rd(AT, 8) && v[0].memory.data_size as u64 == rd(AT + 8, 4) && v[0].memory.rva as u64 == rd(AT + 12, 4));
+        }
+        Err(_) => assert!(false),
+    }
+    std::mem::forget(r);
 }
 
 #[path = "../playback/c02_records.rs"]
